@@ -81,7 +81,9 @@ func (u *decodeUnit) cycle(cycle int, app risc.Application, ctx *risc.Context) {
 			return
 		}
 		if runner.InstructionType() == risc.Ret {
+			// Nothing after the return is on the executed path: stop decoding at once
 			u.ret = true
+			return
 		}
 	}
 }
